@@ -45,6 +45,7 @@ ename(int rv)
 // lost.  Nothing can move any more in that state, so the wait is only a
 // safety margin; once one loss has been reported in this process the
 // following waits are cut short (the verdict no longer depends on them).
+static bool        racy_close; // mode flowx
 static bool        loss_seen;
 static _Atomic int long_block_seen; // a 10 s send timeout has happened: use short ones from now on
 static uint64_t
@@ -272,6 +273,7 @@ typedef struct {
 	size_t       n, cap;
 	_Atomic long idle; // receive attempts that found nothing
 	_Atomic int  stop;
+	_Atomic int  closing, ack; // see close_puller()
 	long         corrupt;
 	int          odd_rv;
 	nng_listener lst;
@@ -335,16 +337,25 @@ receiver_main(void *arg)
 	if (q->style == RS_AIO && nng_aio_alloc(&aio, NULL, NULL) != 0) {
 		vf_harness_fail("aio alloc");
 	}
+	bool inf = false;
 	for (;;) {
 		nng_msg *m  = NULL;
 		int      rv;
 		if (atomic_load(&q->stop)) break;
+		if (!inf && atomic_load(&q->closing)) {
+			// about to be closed under us: from now on block without a
+			// timeout, so that no receive timeout can expire while the
+			// socket goes away (see close_puller)
+			inf = true;
+			if (q->style == RS_TIMED) nng_socket_set_ms(q->s, NNG_OPT_RECVTIMEO, NNG_DURATION_INFINITE);
+			atomic_store(&q->ack, 1);
+		}
 		switch (q->style) {
 		case RS_NONBLOCK:
 			rv = nng_recvmsg(q->s, &m, NNG_FLAG_NONBLOCK);
 			break;
 		case RS_AIO:
-			nng_aio_set_timeout(aio, 15);
+			nng_aio_set_timeout(aio, inf ? NNG_DURATION_INFINITE : 15);
 			nng_socket_recv(q->s, aio);
 			nng_aio_wait(aio);
 			rv = nng_aio_result(aio);
@@ -635,7 +646,19 @@ static void
 close_puller(int slot)
 {
 	puller_t *q = &C.pull[slot];
-	// close while its receiver may be blocked in a receive
+	// Close while its receiver is blocked in (or about to call) a receive.
+	// Not while a receive *timeout* may be expiring: the expiry thread then
+	// calls pull0_cancel(aio, sock) on a socket that nng_socket_close may
+	// already have destroyed (library defect outside this property, see
+	// mode "flowx", which keeps that race for reproduction).
+	if (q->started && !racy_close) {
+		uint64_t end = vf_now_ns() + 10ull * 1000000000ull;
+		atomic_store(&q->closing, 1);
+		while (!atomic_load(&q->ack)) {
+			if (vf_now_ns() > end) vf_harness_fail("receiver does not acknowledge close");
+			vf_usleep(100);
+		}
+	}
 	nng_socket_close(q->s);
 	q->closed = true;
 	C.exp_rems += C.npush;
@@ -1435,7 +1458,8 @@ main(int argc, char **argv)
 		nng_aio_free(w);
 	}
 	wb_validate();
-	bool bp = !strcmp(vf_mode, "bp");
+	bool bp    = !strcmp(vf_mode, "bp");
+	racy_close = !strcmp(vf_mode, "flowx");
 	for (long idx = 0; idx < vf_cases; idx++) {
 		if (!vf_want_case(idx)) continue;
 		vf_watchdog(180);
